@@ -1,10 +1,22 @@
 /-
   Property C15 — one free releases everything; handed-out pointers stay valid until then.
-  Theorem part: the arena allocator's bookkeeping, for every request sequence and every
-  behaviour of `malloc`.  (That each reader path returns its raw blocks is checked by the
-  allocation ledger of the correspondence run; see DESIGN.md.)
+  Theorem part 1: the arena allocator's bookkeeping, for every request sequence and every
+  behaviour of `malloc` (`alloc_contract` … `header_aligned`).
+  Theorem part 2 (second half of this file): the ledger of the allocation-aware reader model
+  Edn.Model.ReaderA (`readA` = `edn_read_with_options` with its two arenas, every `malloc` /
+  `calloc` / `realloc` / `free` of the library outside arena.c as an event), for EVERY fault
+  oracle: at return no raw heap block is live (`no_raw_block_survives_a_read`), the event trace
+  is well formed — nothing is freed twice, nothing is freed that was not obtained, `realloc` only
+  touches live blocks, each arena is destroyed at most once (`no_double_free` and the lemmas that
+  spell it out) — and the parser's arena is owned by the returned value or destroyed
+  (`arena_owned_or_destroyed`); the accessors that materialise payloads lazily use the arena only
+  (`accessors_use_the_arena_only`).  The model is tied to the C code by the `H` correspondence
+  stream of `./check C16` / `./check C15` (event traces compared for every request index of every
+  corpus document, failed alone and from there on).
 -/
 import Edn.Proofs.Arena
+import Edn.Proofs.AllocLedger
+import Edn.Proofs.AllocLedgerSound2
 
 namespace Edn.Properties.C15
 open Edn.Model Edn.Proofs Edn.Generated
@@ -54,5 +66,199 @@ theorem header_aligned : Tables.sizeofArenaBlock % 8 = 0 := by decide
 /-- non-vacuity: a run that exercises the fast path, the slow path and a refused request -/
 example : (Arena.run (fun n => n ≤ 2 ^ 40) Arena.create [8, 20000, sizeMax - 2, 1]).1 =
     [some ⟨0, 0, 8⟩, some ⟨1, 0, 20000⟩, none, some ⟨1, 20000, 8⟩] := by decide +kernel
+
+/-! ## The reader's ledger (Edn.Model.ReaderA, every fault oracle) -/
+
+section Ledger
+open Edn.Proofs.AllocLedger
+
+/-- Nothing leaks.  Whatever requests fail (any oracle `orc`, any growth rule of the builders, any
+    preset handlers that allocate, any order in which `qsort` meets the elements), when
+    `edn_read_with_options` returns no raw heap block of the library is live: the heap copy of a
+    long float literal, the line records and the (reallocated) pointer array of a text block, the
+    scratch copy and the hash table of the duplicate check and a half-built arena record have all
+    been freed — on the success path, on every error path and when the caller's end-of-input value
+    is returned.  The temporary arena of the error-position code never existed or is destroyed. -/
+theorem no_raw_block_survives_a_read (cfg : Cfg) (opts : Opts) (orc : Nat → Bool) (input : Bytes)
+    (grow : Nat → Nat) (handlerReq : String → Bool) (sortTouch : Nat → List Nat) :
+    (readA cfg opts orc input grow handlerReq sortTouch).ast.live = [] ∧
+    ((readA cfg opts orc input grow handlerReq sortTouch).ast.tmp = .none ∨
+     (readA cfg opts orc input grow handlerReq sortTouch).ast.tmp = .destroyed) :=
+  ⟨(readA_ledger cfg opts orc input grow handlerReq sortTouch).1, (readA_ledger cfg opts orc input grow handlerReq sortTouch).2.1⟩
+
+/-- … and inside the read: every reader function (here `edn_read_value`; the five others in
+    `Edn.Proofs.AllocLedger.reader_live_preserved`) returns with exactly the live raw blocks it was
+    called with and does not touch the arenas' life states, with any fuel, under any oracle. -/
+theorem reader_returns_its_raw_blocks (x : ACtx) (f d : Nat) (dm : Bool) (st : St) (a : ASt) :
+    (readValueA x f d dm st a).2.live = a.live ∧ (readValueA x f d dm st a).2.arena = a.arena ∧
+    (readValueA x f d dm st a).2.tmp = a.tmp :=
+  (reader_live_preserved x f).1 d dm st a
+
+/-- Nothing is freed twice.  The event trace of a whole read is well formed (`TraceOK`: a checker
+    that keeps the ledger of live blocks and existing arenas reads it from the first event to the
+    last without getting stuck) under any oracle.  What that means on the positions of a trace is
+    spelled out by the next five theorems. -/
+theorem no_double_free (cfg : Cfg) (opts : Opts) (orc : Nat → Bool) (input : Bytes)
+    (grow : Nat → Nat) (handlerReq : String → Bool) (sortTouch : Nat → List Nat) :
+    TraceOK (readA cfg opts orc input grow handlerReq sortTouch).ast.trace.reverse :=
+  (readA_ledger cfg opts orc input grow handlerReq sortTouch).2.2.1.traceOK
+
+/-- Nothing is leaked, read off the trace alone (the trace is what the correspondence run compares
+    with the C code): every block that a granted `malloc`, `calloc` or `realloc` returned during
+    the read has been freed by a later `free`, or handed to a granted `realloc` (whose result is
+    accounted for in turn) — under any oracle, on every path. -/
+theorem every_block_is_released (cfg : Cfg) (opts : Opts) (orc : Nat → Bool) (input : Bytes)
+    (grow : Nat → Nat) (handlerReq : String → Bool) (sortTouch : Nat → List Nat) (k : ReqKind) (i o : Nat)
+    (hk : k = .malloc ∨ k = .calloc ∨ k = .realloc)
+    (hm : Ev.req k i false o ∈ (readA cfg opts orc input grow handlerReq sortTouch).ast.trace) :
+    Ev.free i ∈ (readA cfg opts orc input grow handlerReq sortTouch).ast.trace ∨
+    ∃ n, Ev.req .realloc n false i ∈ (readA cfg opts orc input grow handlerReq sortTouch).ast.trace := by
+  obtain ⟨hl, _, hs, _⟩ := readA_ledger cfg opts orc input grow handlerReq sortTouch
+  have := all_released (L := led (readA cfg opts orc input grow handlerReq sortTouch).ast) hs hl k i o hk
+    (List.mem_reverse.mpr hm)
+  simpa using this
+
+/-- in a well-formed trace a `free` is of a block that a granted `malloc` / `calloc` / `realloc` /
+    arena-creation request has returned earlier … -/
+theorem wellformed_free_was_obtained {t1 t2 : List Ev} {id : Nat} (h : TraceOK (t1 ++ .free id :: t2)) :
+    ∃ k old, rawKind k ∧ Ev.req k id false old ∈ t1 :=
+  free_has_request h
+
+/-- … there is no second `free` of it, before or after … -/
+theorem wellformed_free_once {t1 t2 : List Ev} {id : Nat} (h : TraceOK (t1 ++ .free id :: t2)) :
+    Ev.free id ∉ t1 ∧ Ev.free id ∉ t2 :=
+  free_once h
+
+/-- … and it is not a block that `realloc` has taken away, nor is it handed to `realloc` later -/
+theorem wellformed_free_not_reallocated {t1 t2 : List Ev} {id : Nat} (h : TraceOK (t1 ++ .free id :: t2)) :
+    (∀ n, Ev.req .realloc n false id ∉ t1) ∧ (∀ n f, Ev.req .realloc n f id ∉ t2) :=
+  free_not_after_realloc h
+
+/-- `realloc`, granted or refused, is applied to a live block only; a granted one takes the old
+    block away for good -/
+theorem wellformed_realloc {t1 t2 : List Ev} {n old : Nat} {failed : Bool}
+    (h : TraceOK (t1 ++ .req .realloc n failed old :: t2)) :
+    ((∃ k o, rawKind k ∧ Ev.req k old false o ∈ t1) ∧ Ev.free old ∉ t1 ∧ ∀ m, Ev.req .realloc m false old ∉ t1) ∧
+    (failed = false → Ev.free old ∉ t2 ∧ ∀ m f, Ev.req .realloc m f old ∉ t2) :=
+  ⟨realloc_of_live h, fun hf => by subst hf; exact realloc_takes_away h⟩
+
+/-- each of the two arenas is destroyed at most once -/
+theorem wellformed_destroy_once {t1 t2 : List Ev} {b : Bool} (h : TraceOK (t1 ++ .destroy b :: t2)) :
+    Ev.destroy b ∉ t1 ∧ Ev.destroy b ∉ t2 := by
+  refine ⟨destroy_once h, fun hm => ?_⟩
+  obtain ⟨u, w, rfl⟩ := List.append_of_mem hm
+  have h' : TraceOK ((t1 ++ .destroy b :: u) ++ .destroy b :: w) := by simpa using h
+  exact destroy_once h' (List.mem_append_right _ List.mem_cons_self)
+
+/-- The parser's arena is owned or destroyed.  A value is returned only if the arena was created
+    (requests 1 and 2 granted), and then the arena is alive at return: it belongs to the value, and
+    the single `edn_free` of the root releases it with everything the read allocated in it (every
+    value of the model, `nil` / `true` / `false` included, lives in the arena, as in the C code of
+    this tree, which has no singleton values).  With an error or the caller's end-of-input value
+    the arena has been destroyed before returning (or never existed).  `Outcome.fuelOut` is the
+    model's artefact that cannot occur (Edn.Properties.C16). -/
+theorem arena_owned_or_destroyed (cfg : Cfg) (opts : Opts) (orc : Nat → Bool) (input : Bytes)
+    (grow : Nat → Nat) (handlerReq : String → Bool) (sortTouch : Nat → List Nat) :
+    match (readA cfg opts orc input grow handlerReq sortTouch).out with
+    | .value _ => arenaCreated orc = true ∧ (readA cfg opts orc input grow handlerReq sortTouch).ast.arena = .alive
+    | .eofValue => (readA cfg opts orc input grow handlerReq sortTouch).ast.arena = (if arenaCreated orc then .destroyed else .none)
+    | .error _ _ _ => (readA cfg opts orc input grow handlerReq sortTouch).ast.arena = (if arenaCreated orc then .destroyed else .none)
+    | .fuelOut => (readA cfg opts orc input grow handlerReq sortTouch).ast.arena = (if arenaCreated orc then .alive else .none) :=
+  (readA_ledger cfg opts orc input grow handlerReq sortTouch).2.2.2
+
+/-- the arena is alive at return exactly when a value is returned (the hypothesis is discharged
+    by `Edn.Properties.C16`: the fuel never runs out) -/
+theorem arena_alive_iff_value (cfg : Cfg) (opts : Opts) (orc : Nat → Bool) (input : Bytes)
+    (grow : Nat → Nat) (handlerReq : String → Bool) (sortTouch : Nat → List Nat)
+    (hfo : (readA cfg opts orc input grow handlerReq sortTouch).out ≠ .fuelOut) :
+    (readA cfg opts orc input grow handlerReq sortTouch).ast.arena = .alive ↔
+      ∃ v, (readA cfg opts orc input grow handlerReq sortTouch).out = .value v := by
+  have h := arena_owned_or_destroyed cfg opts orc input grow handlerReq sortTouch
+  generalize readA cfg opts orc input grow handlerReq sortTouch = r at h hfo
+  rcases r with ⟨out, calls, ast⟩
+  cases out with
+  | value v => exact ⟨fun _ => ⟨v, rfl⟩, fun _ => h.2⟩
+  | eofValue =>
+    refine ⟨fun ha => ?_, fun ⟨v, hv⟩ => by cases hv⟩
+    have h : ast.arena = _ := h
+    rw [h] at ha
+    cases hc : arenaCreated orc <;> rw [hc] at ha <;> cases ha
+  | error c es ee =>
+    refine ⟨fun ha => ?_, fun ⟨v, hv⟩ => by cases hv⟩
+    have h : ast.arena = _ := h
+    rw [h] at ha
+    cases hc : arenaCreated orc <;> rw [hc] at ha <;> cases ha
+  | fuelOut => exact (hfo rfl).elim
+
+/-- The accessors called after the read (`edn_string_get`, `edn_bigint_get`, `edn_bigdec_get`)
+    make no raw request and free nothing (live blocks, arenas and the well-formedness of the trace
+    are kept), make at most one request on the arena, and return what they return when memory is
+    not an issue — or NULL after their one request was refused, leaving everything else as it
+    was. -/
+theorem accessors_use_the_arena_only (x : ACtx) (v : Val) (a : ASt) :
+    ((materialiseA x v a).2.live = a.live ∧ (materialiseA x v a).2.arena = a.arena ∧
+      (Sync a → Sync (materialiseA x v a).2)) ∧
+    ((materialiseA x v a).2.reqs = a.reqs ∨ (materialiseA x v a).2.reqs = a.reqs + 1) ∧
+    ((materialiseA x v a).1 = accessPure x.ctx.cfg v ∨
+     ((materialiseA x v a).1 = none ∧ (a.request x.orc .arena).1 = false ∧
+      (materialiseA x v a).2 = (a.request x.orc .arena).2)) :=
+  let h := materialiseA_ledger x v a
+  ⟨⟨h.1.live, h.1.arena, h.1.sync⟩, h.2⟩
+
+/-! ### Examples (experimental build: a text block of 17 lines; the pointer array holds 16) -/
+
+/-- `"""`, 17 lines `a`, closing `"""` -/
+def tbDoc : Bytes := ("\"\"\"\n" ++ String.join (List.replicate 17 "a\n") ++ "  \"\"\"").toUTF8.toList
+
+def cfgExp : Cfg := { clj := false, exp := true }
+
+/-- no failure: arena (`nn`), pointer array and 16 line records (`m`), `realloc` of block 3 (`r3`),
+    the 17th record, the text (`a`), the clean-up (`f…`, the new array 20 last), the value (`a`) -/
+example : (readA cfgExp {} (fun _ => false) tbDoc).ast.renderTrace =
+    "nnmmmmmmmmmmmmmmmmmr3mmaf4f5f6f7f8f9f10f11f12f13f14f15f16f17f18f19f21f22f20a" := by decide +kernel
+
+example : (match (readA cfgExp {} (fun _ => false) tbDoc).out with | .value (.str _ _ _) => true | _ => false) = true ∧
+    (readA cfgExp {} (fun _ => false) tbDoc).ast.live = [] ∧
+    (readA cfgExp {} (fun _ => false) tbDoc).ast.arena = .alive := by decide +kernel
+
+/-- the `realloc` (request 20) fails: the 16 records and the OLD array 3 are freed, the error
+    positions are computed with a temporary arena (`nntt`, `d1`), the parser's arena is destroyed
+    (`d0`); nothing is live, the outcome is OUT_OF_MEMORY -/
+example : (readA cfgExp {} (fun n => n == 20) tbDoc).ast.renderTrace =
+    "nnmmmmmmmmmmmmmmmmmR3f4f5f6f7f8f9f10f11f12f13f14f15f16f17f18f19f3nnttd1d0" := by decide +kernel
+
+example : (match (readA cfgExp {} (fun n => n == 20) tbDoc).out with | .error .outOfMemory _ _ => true | _ => false) = true ∧
+    (readA cfgExp {} (fun n => n == 20) tbDoc).ast.live = [] ∧
+    (readA cfgExp {} (fun n => n == 20) tbDoc).ast.arena = .destroyed ∧
+    (readA cfgExp {} (fun n => n == 20) tbDoc).ast.tmp = .destroyed ∧
+    TraceOK (readA cfgExp {} (fun n => n == 20) tbDoc).ast.trace.reverse := by decide +kernel
+
+/-- the hypotheses of the `wellformed_…` theorems on that trace: block 3 is obtained, handed to the
+    refused `realloc` and freed afterwards -/
+example : ((readA cfgExp {} (fun n => n == 20) tbDoc).ast.trace.contains (.req .malloc 3 false 0) &&
+    (readA cfgExp {} (fun n => n == 20) tbDoc).ast.trace.contains (.req .realloc 20 true 3) &&
+    (readA cfgExp {} (fun n => n == 20) tbDoc).ast.trace.contains (.free 3)) = true := by decide +kernel
+
+/-- every request from the 21st on fails (the 17th line record is refused): the new array 20 is freed -/
+example : (readA cfgExp {} (fun n => n ≥ 21) tbDoc).ast.renderTrace =
+    "nnmmmmmmmmmmmmmmmmmr3Mf4f5f6f7f8f9f10f11f12f13f14f15f16f17f18f19f20Nd0" := by decide +kernel
+
+/-- the checker does reject ill-formed traces: a double free, a free of a block never obtained, a
+    `realloc` of a freed block, a second destruction, an arena request granted without an arena -/
+example : ¬ TraceOK [.req .malloc 1 false 0, .free 1, .free 1] ∧ ¬ TraceOK [.free 1] ∧
+    ¬ TraceOK [.req .malloc 1 false 0, .free 1, .req .realloc 2 false 1] ∧
+    ¬ TraceOK [.req .arenaNew 1 false 0, .req .arenaNew 2 false 0, .destroy false, .destroy false] ∧
+    ¬ TraceOK [.req .arena 1 false 0] ∧
+    TraceOK [.req .arenaNew 1 false 0, .req .arenaNew 2 true 0, .free 1] := by decide +kernel
+
+/-- a string with an escape, accessed with the request refused and then granted -/
+example :
+    let x : ACtx := { ctx := { cfg := Cfg.core, opts := {} }, orc := fun n => n == 1 }
+    let v : Val := .str (mkHdr 4 0) [0x61, 0x5C, 0x6E] true
+    let a : ASt := { arena := .alive }
+    (materialiseA x v a).1 = none ∧ (materialiseA x v (materialiseA x v a).2).1 = some [0x61, 0x0A] := by
+  decide +kernel
+
+end Ledger
 
 end Edn.Properties.C15
